@@ -7,7 +7,11 @@
  *
  * Model: per object (buffer, off, len) or empty; per buffer (element area,
  * nm, sz, internal/external, the library blocks that came into being with
- * it).  The oracle only uses argument *values* (never the argument class the
+ * it).  A model "buffer" is one library-side wrapper: two separate
+ * cstl_array_set() calls over the same caller-owned block give two buffers
+ * with the same data pointer but independent blocks, referrers and geometry,
+ * and set(a, NULL, 0, sz) gives a buffer of size 0 / data NULL that is still
+ * "something" (slice [0,0) legal, shareable).  The oracle only uses argument *values* (never the argument class the
  * generator drew them from); classes only feed the evidence counters.
  */
 #include "vrt.h"
